@@ -13,6 +13,9 @@ Definition SUIT_BLANK : N := variant CardSuit_NAMES "BLANK".
 (* CardNumber::filter / PokerCard::filter — the complete graph over all 2^32 words *)
 Definition filter (w : N) : N := assoc FILTER_NONBLANK w CN_BLANK.
 
+(* a stable name for the extraction (List.filter may claim the bare name) *)
+Definition card_filter (w : N) : N := filter w.
+
 (* CardRank::{bits,prime,shift8}, CardSuit::binary_signature: per-variant data *)
 Definition rank_bits (r : N) : N := nthN RANK_BITS r 0.
 Definition rank_prime (r : N) : N := nthN RANK_PRIME r 0.
